@@ -37,6 +37,63 @@ func genC02(tier string, seed uint64, emit func(string)) {
 	if tier != "thorough" {
 		big = len(sizes) // all sizes in both tiers: they are cheap (one whole + a few dozen splits each)
 	}
+	// long runs of small values - null arrays, null bulks, empty arrays and bulks, chains of nested arrays up to 48 deep -
+	// with ordinary command arrays between and behind them: whatever a parser keeps from one value to the next (a depth, a
+	// count, a buffer) must not carry over
+	{
+		small := func(k int) *Node {
+			switch k % 9 {
+			case 0, 1, 2:
+				return &Node{Kind: 'N'}
+			case 3:
+				return &Node{Kind: 'n'}
+			case 4:
+				return &Node{Kind: 'a', Es: []*Node{}}
+			case 5:
+				return &Node{Kind: 'b', P: []byte{}}
+			case 6:
+				return &Node{Kind: 'a', Es: []*Node{{Kind: 'N'}, {Kind: 'a', Es: []*Node{}}, {Kind: 'N'}}}
+			case 7:
+				return &Node{Kind: 'i', P: []byte("7")}
+			}
+			return &Node{Kind: 'a', Es: []*Node{{Kind: 'b', P: []byte("PING")}}}
+		}
+		chain := func(depth int, leaf *Node) *Node {
+			t := leaf
+			for d := 0; d < depth; d++ {
+				t = &Node{Kind: 'a', Es: []*Node{t}}
+			}
+			return t
+		}
+		var runs [][]*Node
+		for _, n := range []int{9, 10, 16, 33, 64, 130} {
+			var nulls, mixed []*Node
+			for j := 0; j < n; j++ {
+				nulls = append(nulls, &Node{Kind: 'N'})
+				mixed = append(mixed, small(r.Intn(9)))
+			}
+			cmd := &Node{Kind: 'a', Es: []*Node{{Kind: 'b', P: []byte("GET")}, {Kind: 'b', P: []byte("k")}}}
+			runs = append(runs, append(nulls, cmd), append(mixed, cmd, &Node{Kind: 'N'}, cmd))
+		}
+		for _, d := range []int{7, 8, 9, 10, 11, 16, 31, 32, 33, 48} {
+			runs = append(runs, []*Node{chain(d, &Node{Kind: 'b', P: []byte("x")}), chain(d, &Node{Kind: 'N'}), chain(d, &Node{Kind: 'a', Es: []*Node{}}), {Kind: 's', P: []byte("OK")}})
+		}
+		for _, vals := range runs {
+			var b []byte
+			var vt []string
+			for _, v := range vals {
+				v.refEnc(&b)
+				vt = append(vt, v.String())
+			}
+			head := fmt.Sprintf("chunks %d %s |", len(vals), strings.Join(vt, " "))
+			emit(segsCase(head, [][]byte{b}))
+			emit(segsCase(head, oneByteSegs(b)))
+			emit(segsCase("chunkse"+head[len("chunks"):], partition(r, b, 2+r.Intn(9))))
+			for k := 0; k < 4; k++ {
+				emit(segsCase(head, partition(r, b, 2+r.Intn(12))))
+			}
+		}
+	}
 	eofToo := false
 	for i := 0; i < streams+big; i++ {
 		eofToo = i%3 == 0 || i >= streams
